@@ -32,8 +32,7 @@ SPECS = {
     + [spec("tiny", [("suspend", "both"), ("release", 0), ("release", 1)], bound=3)]
     + [spec("suspreal", [("put", "sig", 1), ("put", "sig", 0)], bound=2, sleep=s, a=a) for s in (0, 2) for a in (0, 1)]
     + [spec(k, [("suspend", "both")], bound=1, ri=1) for k in ("scan2", "nested")]
-    + [spec("suspreal", [("put", "sig", 1), ("put", "sig", 0), ("puts", "sig", 0, 1), ("puts", "sig", 1, 0)], bound=2, sleep=s, a=a) for s in (0, 2) for a in (0, 1)]
-    + [spec("suspreal", [("put", "sig", 1), ("put", "sig", 0), ("puts", "sig", 0, 1), ("@once", "put")], bound=3, sleep=2)],
+    + [spec("suspreal", [("put", "sig", 1), ("put", "sig", 0), ("puts", "sig", 0, 1), ("puts", "sig", 1, 0)], bound=2, sleep=s) for s in (0, 2)],
 }
 
 
